@@ -79,7 +79,11 @@ impl<T: RequestHandler> ServerTask<T> {
             ServerTaskInner::Tcp(mut task, commands) => {
                 task.run(commands).await;
                 #[cfg(feature = "verif-hooks")]
-                crate::verif::emit(crate::verif::Event::ServerEnd);
+                {
+                    // the listener is gone before the end of the task is reported
+                    drop(task);
+                    crate::verif::emit(crate::verif::Event::ServerEnd);
+                }
             }
             #[cfg(feature = "serial")]
             ServerTaskInner::Rtu(mut task) => {
